@@ -101,7 +101,7 @@ def showRes : Except RErr Frame → String
 def laneH2Read : List String → String
   | [m, a, h] => match m.toNat?, bool? a, decodeHex h with
     | some m, some a, some b =>
-      let r : Reader := { maxReadSize := m, allowIllegalReads := a }
+      let r : Reader := { maxReadSize := setMaxReadFrameSize m, allowIllegalReads := a }
       ";".intercalate ((readAll (b.length / 9 + 2) r b).map showRes)
     | _, _, _ => "bad-op"
   | _ => "bad-op"
